@@ -54,6 +54,8 @@ func fixedScenarios() []force {
 		{name: "fmp4-h265", variant: 2, tracks: []tcfgA{vid(kH265, 5)}, target: "index"},
 		{name: "ll-opus", variant: 3, tracks: []tcfgA{opus(0, 0)}, target: "index"},
 		{name: "h264-short-segments", variant: 2, tracks: []tcfgA{vid(kH264, 1)}, target: "index", segMin: 200e6},
+		{name: "fmp4-pointed-at-audio-rendition", variant: 2, tracks: []tcfgA{vid(kH264, 1), aac(16000, 0, 0, false)}, target: "media:1"},
+		{name: "ll-pointed-at-audio-rendition", variant: 3, tracks: []tcfgA{vid(kH264, 1), aac(16000, 0, 0, false)}, target: "media:1", partMin: 200e6},
 		{name: "ts-h264-short-segments", variant: 1, tracks: []tcfgA{vid(kH264, 1)}, target: "media:0", segMin: 250e6},
 	}
 }
@@ -109,9 +111,8 @@ func genPair(seed uint64, id int, f *force) pairDesc {
 	if r.Bool(1, 6) {
 		h.SegCount = 0 // default (7)
 	}
-	// a window in which every segment is shorter than 0.5 s is advertised with EXT-X-TARGETDURATION:0,
-	// which the Client's playlist decoder rejects (finding C09:*:tracks:not-reported:TARGETDURATION-not-set):
-	// one pair in eight keeps such short segments, the others use 0.5 s and more
+	// 0.5 s and more; one pair in eight keeps segments shorter than 0.5 s (they rounded to
+	// EXT-X-TARGETDURATION:0 before fix 69594d6 - finding F20 - and must play now)
 	h.SegMin = []int64{500e6, 500e6, 600e6, 750e6, 1000e6}[r.Intn(5)]
 	if r.Bool(1, 8) {
 		h.SegMin = []int64{100e6, 200e6, 250e6, 400e6}[r.Intn(4)]
